@@ -15,3 +15,44 @@ def setAdd {α : Type} [BEq α] (s : List α) (x : α) : List α := if s.contain
 def distinct {α : Type} [BEq α] (l : List α) : List α := l.foldl setAdd []
 
 end Py
+
+/-! # Sets and `sorted` on strings (`fv/pylean.py`)
+
+A Python `set` is kept as a list without repetitions.  The order of that list means nothing (Python does not define
+the iteration order of a set): the translator lets a set be consumed only by operations whose result does not depend
+on it (`union`, difference, `sorted`).  Core Lean only. -/
+
+namespace Py
+
+/-- a Python `set`: a list without repetitions, in no particular order -/
+abbrev SetOf (α : Type) := List α
+
+/-- `set(l)` -/
+def SetOf.ofList {α : Type} [BEq α] : List α → SetOf α
+  | [] => []
+  | x :: xs => if xs.contains x then SetOf.ofList xs else x :: SetOf.ofList xs
+
+/-- `s.union(t)` -/
+def SetOf.union {α : Type} [BEq α] (s : SetOf α) (t : List α) : SetOf α :=
+  s ++ (SetOf.ofList t).filter (fun x => !s.contains x)
+
+/-- `s - t` -/
+def SetOf.diff {α : Type} [BEq α] (s : SetOf α) (t : List α) : SetOf α := s.filter (fun x => !t.contains x)
+
+/-- insertion into a descending list (behind the elements equal to `s`: equal strings cannot be told apart) -/
+def insertDesc (s : String) : List String → List String
+  | [] => [s]
+  | x :: xs => if x < s then s :: x :: xs else x :: insertDesc s xs
+
+/-- `sorted(l, reverse=True)` on strings (compared by code points, lexicographically, as in Python) -/
+def sortedDesc (l : List String) : List String := l.foldr insertDesc []
+
+/-- insertion into an ascending list (before the elements equal to `s`) -/
+def insertAsc (s : String) : List String → List String
+  | [] => [s]
+  | x :: xs => if x < s then x :: insertAsc s xs else s :: x :: xs
+
+/-- `sorted(l)` on strings -/
+def sortedAsc (l : List String) : List String := l.foldr insertAsc []
+
+end Py
